@@ -14,7 +14,21 @@ type PfxStats struct {
 	Transitions int // executions of Visit (nodes checked)
 	MaxLen      int
 	Capped      bool
+	// Loops are the (node, byte) pairs whose child has the node's own key (self loops of the
+	// product state: saturated counters, plain string bytes, whitespace runs), one representative
+	// per (PumpKey(node key), byte class). They seed the pumping pass.
+	Loops []Loop
 }
+
+// Loop is a self-loop witness.
+type Loop struct {
+	W []byte
+	B byte
+}
+
+// PumpKey extracts from a node key the part by which pumping representatives are deduplicated
+// (set by the driver; default: the whole key).
+var PumpKey = func(key string) string { return key }
 
 // PfxBFS explores from the roots (nil root = the empty input). maxStates caps the search
 // (reported as Capped, never silently).
@@ -22,6 +36,8 @@ func PfxBFS(r *Run, roots [][]byte, visit Visit, maxStates int) PfxStats {
 	var st PfxStats
 	seen := map[string]struct{}{}
 	var queue [][]byte
+	var qkeys []string
+	loopSeen := map[string]struct{}{}
 	if len(roots) == 0 {
 		roots = [][]byte{nil}
 	}
@@ -31,11 +47,14 @@ func PfxBFS(r *Run, roots [][]byte, visit Visit, maxStates int) PfxStats {
 		if _, ok := seen[k]; !ok && ex {
 			seen[k] = struct{}{}
 			queue = append(queue, append([]byte(nil), rt...))
+			qkeys = append(qkeys, k)
 		}
 	}
 	for len(queue) > 0 {
 		w := queue[0]
 		queue = queue[1:]
+		wk := qkeys[0]
+		qkeys = qkeys[1:]
 		if len(w) > st.MaxLen {
 			st.MaxLen = len(w)
 		}
@@ -48,6 +67,13 @@ func PfxBFS(r *Run, roots [][]byte, visit Visit, maxStates int) PfxStats {
 			if !ex {
 				continue
 			}
+			if k == wk {
+				lk := PumpKey(k) + "\x00" + string(ByteClass(byte(b)))
+				if _, ok := loopSeen[lk]; !ok {
+					loopSeen[lk] = struct{}{}
+					st.Loops = append(st.Loops, Loop{W: append([]byte(nil), w...), B: byte(b)})
+				}
+			}
 			if _, ok := seen[k]; ok {
 				continue
 			}
@@ -57,6 +83,7 @@ func PfxBFS(r *Run, roots [][]byte, visit Visit, maxStates int) PfxStats {
 			}
 			seen[k] = struct{}{}
 			queue = append(queue, append([]byte(nil), child...))
+			qkeys = append(qkeys, k)
 		}
 		if r.TooMany() {
 			st.Capped = true
@@ -125,4 +152,38 @@ func ClassSuffix(w []byte, k int) string {
 		b[i] = ByteClass(w[len(w)-k+i])
 	}
 	return string(b)
+}
+
+// Pump is the pumping pass: for every self-loop witness (w, b) it runs visit on
+// w b^n c b^m and on the same input followed by complete(input), for n in [0, maxN], every byte
+// c, m = tail. It reaches what saturated counters hide: behaviour that depends on the length of
+// a run (8/16-byte chunked fast paths, digit-count thresholds). Returns executions.
+func Pump(r *Run, loops []Loop, visit Visit, complete func([]byte) []byte, maxN, tail int) int {
+	n := 0
+	for _, l := range loops {
+		for k := 0; k <= maxN; k++ {
+			base := append([]byte(nil), l.W...)
+			for i := 0; i < k; i++ {
+				base = append(base, l.B)
+			}
+			for c := 0; c < 256; c++ {
+				x := append(append([]byte(nil), base...), byte(c))
+				for i := 0; i < tail; i++ {
+					x = append(x, l.B)
+				}
+				visit(x)
+				n++
+				if complete != nil {
+					if suf := complete(x); len(suf) > 0 {
+						visit(append(x, suf...))
+						n++
+					}
+				}
+			}
+		}
+		if r.TooMany() {
+			break
+		}
+	}
+	return n
 }
